@@ -388,4 +388,5 @@ def _run_own(ck):
 
 def run(ck, **kw):
     _run_own(ck)
+    ck.include('C14', 'the optimiser reads its input with the QASM parser and prints the extracted circuit with to_qasm (gate.rs / circuit.rs are anchored here too): a printed text that does not parse back, or parses to another circuit, breaks the command-line clause')
     ck.include('C02', 'the optimiser first translates the circuit into a diagram (circuit.rs / gate.rs are anchored here too) and then simplifies it: a wrong translation or an unsound rule application in simplify.rs yields a circuit for a different unitary')
